@@ -382,6 +382,17 @@ def r_C15i(root):
     if not ok:
         why = "records of objects that were still being built (%s) stay in user_class._tx_obj_attrs: they hold `parent`, so the partial model stays reachable" % [x for x in left if x != 9] if any(x != 9 for x in left) else "the records of another load of the same metamodel (9) are dropped as well: the importing models lose their collected attributes and markers"
         for pr in ("C15", "C18", "C14"): out.append(Finding(pr, "C15.i", M, "TextXModelParser._release_user_obj_attrs", "records left: %s" % left, "a failed parser must release exactly the records of the objects it created; " + why, witness="user classes; a load that fails while a user object is half built / while an imported file is parsed"))
+    # a parser that failed before it created any user object (syntax error in the first line): nothing to release, no error
+    inst += 1
+    bare = {".kind": "parser", ".metamodel": {".user_classes": {"A": cls_a, "B": cls_b}}, ".__complete__": "all"}
+    before = sorted(cls_a["._tx_obj_attrs"])
+    try: pyeval.run_block(fn.body, {"self": bare}); err2 = None
+    except pyeval.Unsupported as e: raise AnalysisError("_release_user_obj_attrs: outside the evaluated subset: %s" % e)
+    except pyeval.Raised as e: err2 = e.cls
+    ok2 = err2 is None and sorted(cls_a["._tx_obj_attrs"]) == before
+    for pr in ("C15", "C28", "C14"): ob(pr, "C15.i", M, "TextXModelParser._release_user_obj_attrs", "a parser that never recorded an object id: nothing happens", ok2)
+    if not ok2:
+        for pr in ("C15", "C28", "C14"): out.append(Finding(pr, "C15.i", M, "TextXModelParser._release_user_obj_attrs", "parser without _user_obj_ids", "releasing the records of a parser that failed before it created any user object (it has no list of object ids yet) %s; documented: nothing to release, no error - the clean-up runs in the failure handler, an exception raised there replaces the located syntax error the user should see" % ("raises %s" % err2 if err2 else "changes the records of another load"), witness="user classes; a model with a syntax error in its first token"))
     return inst, out
 
 def r_C14inst(root):
